@@ -136,10 +136,10 @@ def tfunLayout (cfg : Cfg) (es : InEdges) (comps : List (List (Int × G))) (real
       else if cfg.p4 == 0 && a.nodes.size > 1 then
         let m := (execSinkColoring cfg.ns a).map fun (g, _) => assignYCoords cfg.ls g
         out := out ++ [cmpG "T:phase4-sinkcoloring" m b]
-      else if a.nodes.size > 1 then
-        -- the other positioners: Y is `assignYCoords` of the layer heights they left behind
-        let b0 : G := { b with nodes := b.nodes.map fun n => { n with y := 0 } }
-        out := out ++ [cmpG "T:assignY" (pure (assignYCoords cfg.ls b0)) b]
+      -- every positioner (also on one-node components, which the branches above skip): Y is `assignYCoords` of the layer
+      -- heights the positioner left behind
+      let b0 : G := { b with nodes := b.nodes.map fun n => { n with y := 0 } }
+      out := out ++ [cmpG "T:assignY" (pure (assignYCoords cfg.ls b0)) b]
     | _, _ => pure ()
     -- phase 5
     match stageOf c 4, stageOf c 5 with
